@@ -1134,7 +1134,10 @@ func (ce *commandEncoder) Literal(size int64) io.WriteCloser {
 	ce.client.mutex.Lock()
 	hasCapLiteralMinus := ce.client.caps.Has(imap.CapLiteralMinus)
 	ce.client.mutex.Unlock()
-	if size > 4096 || !hasCapLiteralMinus {
+	// If the encoder has already failed the command is over: a continuation
+	// request registered now would never be cancelled and would swallow the
+	// "+" meant for the next synchronizing literal
+	if (size > 4096 || !hasCapLiteralMinus) && ce.Encoder.Err() == nil {
 		contReq = ce.client.registerContReq(ce.cmd)
 	}
 	ce.client.setWriteTimeout(literalWriteTimeout)
